@@ -80,8 +80,10 @@ def hm1(k, m):
     return hmac.new(k, m, hashlib.sha1).digest()
 
 
+# RESTAuthentication.html: "The subresources that must be included ... are acl, lifecycle, location, logging, notification,
+# partNumber, policy, requestPayment, uploadId, uploads, versionId, versioning, versions, and website" + response-* overrides + delete
 V2_SUBRESOURCES = ["acl", "lifecycle", "location", "logging", "notification", "partNumber", "policy", "requestPayment", "uploadId",
-                   "uploads", "versionId", "versioning", "versions", "website", "delete", "cors", "tagging", "restore", "torrent",
+                   "uploads", "versionId", "versioning", "versions", "website", "delete",
                    "response-content-type", "response-content-language", "response-expires", "response-cache-control",
                    "response-content-disposition", "response-content-encoding"]
 
